@@ -241,9 +241,10 @@ class C04(PropCheck):
         if op == "lvladdr":
             obj = o.scratch(int(a[0]), a[1], int(a[2]))
             return hx(obj._pipe_address(o.mixins._lvl_2_addr(int(a[3])), 0))
-        if op == "setmclvl":
-            obj = o.with_cfg(int(a[0]), a[1], int(a[2]), 0o123, fresh=True)
-            obj.multicast_level = int(a[3])
+        if op == "setmclvl":  # `setmclvl <pfx> <sfx> <am> <node> <lvl>`; legacy form without <node>: node 0o123
+            node = int(a[3]) if len(a) > 4 else 0o123
+            obj = o.with_cfg(int(a[0]), a[1], int(a[2]), node, fresh=True)
+            obj.multicast_level = int(a[-1])
             la = shim_basic.listen_addresses(obj._spi_shim)[0]
             return f"{obj.multicast_level} {'closed' if la is None else hx(la)}"
         if op == "mcast":
@@ -355,7 +356,17 @@ class C04(PropCheck):
         for cf in [dflt] + cfgs:
             for am in (1, 0):
                 c += [(f"lvladdr {cf} {am} {l}", "levels") for l in range(7)]
-                c += [(f"setmclvl {cf} {am} {l}", "levels") for l in range(-2, 8)]
+                # the setter on nodes of every depth: the level's address with multicast, the node's own without
+                for n in [0, 0o1, 0o11, 0o123, 0o5555] + rng.sample(NODES, 3):
+                    c += [(f"setmclvl {cf} {am} {n} {l}", "levels") for l in range(-2, 8)]
+        for am in (1, 0):
+            c += [(f"setmclvl {dflt} {am} {l}", "levels") for l in range(-2, 8)]  # legacy form: node 0o123
+            # reserved addresses (accepted by the constructor), invalid addresses, odd suffix tables: tie only
+            for n in list(RESERVED) + [0o6, 0o10, 0o111111, 0o12345]:
+                c += [(f"setmclvl {dflt} {am} {n} {l}", "levels-malformed") for l in (0, 2, 5)]
+            for sfx in ["c33c33", "-", "c33c33ce3e", "c33c33ce3ee3aa", "c3c3c3c3c3c3", "cccccccccccc"]:
+                c += [(f"setmclvl {rng.randrange(256)} {sfx} {am} {rng.choice(NODES)} {l}", "levels-malformed")
+                      for l in (-1, 1, 4)]
         mc_nodes = [0, 1, 2, 3, 4, 5, 0o11, 0o21, 0o15, 0o123, 0o111, 0o5555, 0o1111] + rng.sample(NODES, 20)
         for cf in [dflt] + cfgs[:3]:
             for n in mc_nodes:
@@ -541,7 +552,7 @@ class C04(PropCheck):
 
     def _judge_level(self, l, op, a, io):
         pfx, sfx, am = int(a[0]), a[1], int(a[2])
-        if not (cfg_ok(pfx, sfx) and am):
+        if not (cfg_ok(pfx, sfx) and (am or op == "setmclvl")):
             return None
         t = self._table(pfx, sfx, am)
         if t is None:
@@ -550,9 +561,24 @@ class C04(PropCheck):
         if op == "lvladdr":
             L, got = int(a[3]), io
         elif op == "setmclvl":
-            L, got = min(4, max(int(a[3]), 0)), io.split()[-1]
+            node = int(a[3]) if len(a) > 4 else 0o123
+            if node not in NODESET:
+                return None
+            L, got = min(4, max(int(a[-1]), 0)), io.split()[-1]
             if io.split()[0] != str(L):
-                return Finding(l, f"multicast_level = {a[3]} leaves level {io.split()[0]}, expected {L}", {})
+                return Finding(l, f"multicast_level = {a[-1]} leaves level {io.split()[0]}, expected {L}", {})
+            if not am:
+                # without multicasting pipe 0 is not a level's shared pipe: after the assignment the node must
+                # (still) listen there on its own pipe-0 address, which nobody else listens on
+                la = by_node[node]
+                if not isinstance(la, list) or la[0] is None:
+                    return Finding(l, f"node {oct(node)} has no pipe-0 address ({la})", {})
+                if got != hx(la[0]):
+                    who = [(oct(n), p) for n, p in by_addr.get(bytes.fromhex(got), [])][:4] if len(got) == 10 else []
+                    return Finding(l, f"multicast_level = {a[-1]} on node {oct(node)} (multicasting off) leaves pipe 0 on "
+                                      f"{got} ({'the address of (node, pipe) ' + str(who) if who else 'no address of this node'}); "
+                                      f"the node's own pipe-0 address is {hx(la[0])}", {"node": node, "pipe": 0})
+                return self._judge_listen(l, pfx, sfx, am, node, [0])
         else:
             node, nl, lvl = int(a[3]), a[4], a[5]
             if node not in NODESET:
